@@ -162,6 +162,7 @@ NUMERIC_PREFIX_VARIANTS = [p % d for d in ("0", "1") for p in (
     "CVSS:3.0%s/", "CVSS:3.+%s/", "CVSS:3.-%s/", "CVSS:3. %s/", "CVSS:3.%s /", "CVSS:3.0_%s/", "CVSS:3.%s.0/", "CVSS:3.%se0/", "CVSS:03.%s/",
     "CVSS:3.%s\n/", "CVSS:3,%s/", "CVSS:3.%s//", "CVSS: 3.%s/", "CVSS:3 .%s/")] + [
     "CVSS:3.\u0661/", "CVSS:3.\u0660/", "CVSS:3.\uff11/", "CVSS:3.\uff10/", "CVSS:\uff13.1/", "CVSS:3.\u0967/", "CVSS:3.\U0001d7cf/",
+    "CVSS:3.\u00b2/", "CVSS:3.\u00b9/", "CVSS:3.\u2080/", "CVSS:3.\u2081/", "CVSS:3.\u2460/", "CVSS:3.\u00bd/", "CVSS:4.\u2070/", "CVSS:\u2074.0/",
     "CVSS:4.\uff10/", "CVSS:\uff14.0/", "CVSS:4.00/", "CVSS:4.+0/", "CVSS:4. 0/", "CVSS:04.0/", "CVSS:4.0 /", "CVSS:4/", "CVSS:4.0.0/"]
 
 
@@ -222,7 +223,7 @@ def prefix_variants(rnd, per_variant=1):
     """every numeric-leniency variant of the version prefix in front of valid bodies of the matching version"""
     out = []
     for pre in NUMERIC_PREFIX_VARIANTS:
-        ver = "4" if ("4" in pre or "\uff14" in pre) else "3"
+        ver = "4" if ("4" in pre or "\uff14" in pre or "\u2074" in pre) else "3"
         for _ in range(per_variant):
             s = random_vector(rnd, ver)[3]
             out.append(pre + s.split("/", 1)[1])
